@@ -986,6 +986,25 @@ def _oracle_case_impl(ctx, spec, items, container, n, seed, in_order):
     return checks
 
 
+def ref_quantile(uni, u):
+    """marginal quantile computed INDEPENDENTLY of the library's percent_point where that is possible: for the
+    parametric (ScipyModel) marginals scipy's own `ppf` with the fitted parameters, for a constant fit the
+    constant, through the Univariate wrapper to the selected instance.  Other marginals (GaussianKDE, whose own
+    EPSILON clipping is the recorded C01 finding) fall back to the model's method.  Returns (values, how)."""
+    from copulas.univariate.base import ScipyModel
+    inner = getattr(uni, '_instance', None)
+    if inner is not None and not isinstance(uni, ScipyModel):
+        return ref_quantile(inner, u)
+    if getattr(uni, '_constant_value', None) is not None:
+        return np.full(np.shape(u), float(uni._constant_value)), 'constant'
+    if isinstance(uni, ScipyModel) and type(uni).percent_point is ScipyModel.percent_point \
+            and hasattr(getattr(uni, 'MODEL_CLASS', None), 'ppf') and isinstance(getattr(uni, '_params', None), dict):
+        with np.errstate(all='ignore'):
+            return np.asarray(uni.MODEL_CLASS.ppf(u, **uni._params), dtype=float), 'scipy ' + type(uni).__name__
+    with np.errstate(all='ignore'):
+        return np.asarray(uni.percent_point(u), dtype=float), 'library ' + type(uni).__name__
+
+
 def backtransform_check(ctx, ep, inp, model, out, rec, items):
     """every sampled FREE value is finite and equals ppf_col(Phi(z)) of the recorded draw z of its own label,
     with Phi computed here by scipy (norm.cdf, cross-checked against exp(norm.logcdf)).  Rows where this
@@ -1005,7 +1024,8 @@ def backtransform_check(ctx, ep, inp, model, out, rec, items):
         with np.errstate(all='ignore'):
             u = stats.norm.cdf(zc)
             u2 = np.exp(stats.norm.logcdf(zc))
-            expd = np.asarray(uni.percent_point(u), dtype=float)
+            expd, how = ref_quantile(uni, u)
+        ctx.count('search:back-transform:reference = ' + how.split()[0])
         real = np.asarray(out[name].to_numpy(), dtype=float)
         agree = np.abs(u - u2) <= 1e-12 * np.abs(u2) + 1e-300
         can = np.isfinite(expd) & agree & np.isfinite(zc)
@@ -1023,8 +1043,8 @@ def backtransform_check(ctx, ep, inp, model, out, rec, items):
             i = int(np.argmax(bad))
             ctx.fail_input(ep, inp, {'column': str(name), 'row': i, 'recorded draw z (normal score)': float(zc[i]),
                                      'sampled value': float(real[i]), 'rows failing': int(bad.sum()), 'rows': len(real)},
-                           f'finite and equal to percent_point(Phi(z)) = {float(expd[i])!r} with Phi(z) = {float(u[i])!r} '
-                           f'(scipy norm.cdf, = exp(norm.logcdf))', CLS_BACK)
+                           f'finite and equal to the marginal quantile of Phi(z) = {float(expd[i])!r} ({how}.ppf with the '
+                           f'fitted parameters) with Phi(z) = {float(u[i])!r} (scipy norm.cdf, = exp(norm.logcdf))', CLS_BACK)
     return checks
 
 
@@ -1034,7 +1054,7 @@ def make_tail_spec(rng, d=None):
     puts a free column\'s conditional mean 6-8 sd into a tail."""
     spec = make_spec(rng, d=d or rng.choice([3, 3, 4]))
     spec['corr'] = {'kind': 'equi', 'block': 2, 'rho': rng.choice([0.85, 0.9, 0.95])}
-    spec['dists'] = ['gaussian', 'gaussian'] + [rng.choice(['gaussian', 'gaussian', 'gaussian', 'gamma', 'uniform'])
+    spec['dists'] = ['gaussian', 'gaussian'] + [rng.choice(['gaussian', 'gaussian', 'gamma', 'uniform', 'beta'])
                                                 for _ in range(spec['d'] - 2)]
     spec['nrows'] = 400
     return spec
@@ -1479,6 +1499,14 @@ def search(ctx, deep):
             tspecs.append((tspec, frees))
     for tspec, frees in tspecs:
         tmodel, _ = build(tspec)
+        tdf = build(tspec)[1]
+        for k in tspec['labels'][:2]:
+            col = tdf[k].to_numpy()
+            span = float(col.max() - col.min())
+            for v in (float(col.max()) + 4 * span, float(col.min()) - 4 * span):
+                ntail += 1
+                ctx.count('search:tail:one column far outside the training range (score +-5.17)')
+                checks += oracle_case(ctx, tspec, [(k, v)], 'dict', 40, rng.randrange(2 ** 32), True)
         for free in frees[:2]:
             targets = [-8.2, -7.8, -7.0, -6.0, 6.0, 7.0, 7.8, 8.2] + [rng.choice([-1, 1]) * rng.uniform(6.0, 8.2) for _ in range(4 if deep else 1)]
             for t in targets:
